@@ -319,6 +319,10 @@ pub fn run(rep: &mut Report) {
             4 | 5 => {
                 let side: i128 = if r.bool() { 1 } else { -1 };
                 let l = side * (DT_LIMIT - 1 - r.range128(0, 3) * *r.pick(&[1i128, 1_000, 1_000_000_000, 3_600_000_000_000, NS_PER_DAY])) + if r.chance(1, 5) { side * r.range128(0, 3) } else { 0 };
+                // a quarter of the time an ordinary receiver and a time part worth about a multiple of 2^31 days: far beyond
+                // the range, but back near the receiver if a 32-bit day count wraps
+                let wrap = r.chance(1, 4);
+                let l = if wrap { r.range128(-1_000_000, 1_000_000) * NS_PER_DAY + r.range128(0, NS_PER_DAY - 1) } else { l };
                 cx.case["local_ns"] = json!(l.to_string());
                 let inside = l > -DT_LIMIT && l < DT_LIMIT;
                 let made = call(|| pdt_from_local(l));
@@ -327,7 +331,7 @@ pub fn run(rep: &mut Report) {
                     cx.exact("PlainDateTime::try_new", if inside { "inside" } else { "beyond-limit" }, call(|| pdt_from_local(l)).map(|p| pdt_local_ns(&p)), if inside { Some(l) } else { None });
                 }
                 if let Out::Ok(pdt) = made {
-                    let delta = small_or_huge(r) / 4;
+                    let delta = if wrap { (if r.bool() { 1 } else { -1 }) * ((*r.pick(&[1i128 << 31, 1 << 32, 1 << 33, 3 << 31, 5 << 32, 24 << 32]) + r.range128(-3, 3)) * NS_PER_DAY + r.range128(-NS_PER_DAY, NS_PER_DAY)) } else { small_or_huge(r) / 4 };
                     let days = r.range(-3, 3);
                     if let Some(mut f) = time_fields(r, delta) {
                         if delta.signum() as i64 * days.signum() >= 0 || delta == 0 || days == 0 {
